@@ -11,6 +11,8 @@ import (
 //   - internal/backend/user.go newUser: deleteAllMessagesMarkedDeleted is called BEFORE cleanupStaleStoreData (the
 //     sweep is the safety net for files the purge's store.Delete loop left behind);
 //   - deleteAllMessagesMarkedDeleted and removeState: the database transaction precedes store.Delete;
+//   - wrapTx returns every commit error; applyMessagesCreated's clean-up loop keeps the transaction error;
+//     actionMoveMessagesOutOfRecoveryMailbox marks the old copy;
 //   - internal/backend/connector_updates.go applyMessageDeleted: the row is marked with
 //     MarkMessageAsDeletedAndAssignRandomRemoteID (a row waiting for the purge cannot be found by remote id again).
 func init() { register("Startup", extractStartup) }
@@ -101,5 +103,96 @@ func extractStartup(t *T) (string, error) {
 	} else {
 		def("conn_delete_releases_remote_id", "", "")
 	}
+	// wrapTx: the error of tx.Commit() is returned whatever it is (no condition besides err != nil)
+	if xf, err := t.ParseFile("internal/db_impl/sqlite3/client.go"); err == nil {
+		v := ""
+		if fd := FuncDecl(xf, "Client", "wrapTx"); fd != nil {
+			ast.Inspect(fd.Body, func(n ast.Node) bool {
+				is, ok := n.(*ast.IfStmt)
+				if !ok || is.Init == nil {
+					return true
+				}
+				as, ok := is.Init.(*ast.AssignStmt)
+				if !ok || len(as.Rhs) != 1 {
+					return true
+				}
+				call, ok := as.Rhs[0].(*ast.CallExpr)
+				if !ok {
+					return true
+				}
+				if sel, ok := call.Fun.(*ast.SelectorExpr); !ok || sel.Sel.Name != "Commit" {
+					return true
+				}
+				v = "false"
+				be, ok := is.Cond.(*ast.BinaryExpr)
+				if ok && be.Op == token.NEQ && isIdentNamed(be.X, "err") && isIdentNamed(be.Y, "nil") {
+					// the body must end by returning an error
+					if n := len(is.Body.List); n > 0 {
+						if rs, ok := is.Body.List[n-1].(*ast.ReturnStmt); ok && len(rs.Results) == 1 && !isIdentNamed(rs.Results[0], "nil") {
+							v = "true"
+						}
+					}
+				}
+				return false
+			})
+		}
+		def("commit_error_always_returned", v, "wrapTx: `if err := tx.Commit(); err != nil { ...; return <error> }` with no further condition")
+	} else {
+		return "", err
+	}
+	// applyMessagesCreated: the clean-up loop after a failed transaction does not assign to the transaction's error
+	if fd := FuncDecl(cf, "user", "applyMessagesCreated"); fd != nil {
+		v := ""
+		ast.Inspect(fd.Body, func(n ast.Node) bool {
+			rs, ok := n.(*ast.RangeStmt)
+			if !ok || !isIdentNamed(rs.X, "messagesToCreate") || firstCall(rs.Body, "DeleteUnchecked") == token.NoPos {
+				return true
+			}
+			v = "true"
+			ast.Inspect(rs.Body, func(m ast.Node) bool {
+				if as, ok := m.(*ast.AssignStmt); ok && as.Tok == token.ASSIGN {
+					for _, l := range as.Lhs {
+						if isIdentNamed(l, "err") {
+							v = "false"
+						}
+					}
+				}
+				return true
+			})
+			return false
+		})
+		def("conn_create_cleanup_keeps_error", v, "applyMessagesCreated: the loop deleting the new cache files after a failed transaction never assigns to err")
+	} else {
+		def("conn_create_cleanup_keeps_error", "", "")
+	}
+	// actionMoveMessagesOutOfRecoveryMailbox marks the OLD copy (id.InternalID) for deletion
+	if af, err := t.ParseFile("internal/state/actions.go"); err == nil {
+		v := ""
+		if fd := FuncDecl(af, "State", "actionMoveMessagesOutOfRecoveryMailbox"); fd != nil {
+			ast.Inspect(fd.Body, func(n ast.Node) bool {
+				c, ok := n.(*ast.CallExpr)
+				if !ok {
+					return true
+				}
+				sel, ok := c.Fun.(*ast.SelectorExpr)
+				if !ok || sel.Sel.Name != "MarkMessageAsDeleted" || len(c.Args) != 2 {
+					return true
+				}
+				v = "false"
+				if a, ok := c.Args[1].(*ast.SelectorExpr); ok && isIdentNamed(a.X, "id") && a.Sel.Name == "InternalID" {
+					v = "true"
+				}
+				return false
+			})
+		}
+		def("recovery_move_marks_old_copy", v, "actionMoveMessagesOutOfRecoveryMailbox: MarkMessageAsDeleted(ctx, id.InternalID) - the copy left in the recovery mailbox")
+	} else {
+		return "", err
+	}
 	return sb.String(), nil
+}
+
+func isIdentNamed(e ast.Expr, name string) bool {
+	id, ok := e.(*ast.Ident)
+	return ok && id.Name == name
 }
